@@ -248,7 +248,12 @@ func classify(err error) string {
 	return "other:" + err.Error()
 }
 
-func goDecIns(doc []byte) string {
+func goDecIns(doc []byte) (res string) {
+	defer func() {
+		if r := recover(); r != nil {
+			res = fmt.Sprintf("panic %v", r)
+		}
+	}()
 	var p prover.InsertionParameters
 	if err := json.Unmarshal(doc, &p); err != nil {
 		return "err " + classify(err)
@@ -256,7 +261,12 @@ func goDecIns(doc []byte) string {
 	return "ok " + canonIns(&p)
 }
 
-func goDecDel(doc []byte) string {
+func goDecDel(doc []byte) (res string) {
+	defer func() {
+		if r := recover(); r != nil {
+			res = fmt.Sprintf("panic %v", r)
+		}
+	}()
 	var p prover.DeletionParameters
 	if err := json.Unmarshal(doc, &p); err != nil {
 		return "err " + classify(err)
